@@ -101,6 +101,8 @@ def analyze_conn(rec):
     where = dict(scn=rec["scn"], conn=rec["conn"], pipe=pipe, depth=depth, defh=int(defh), sendcap=rec.get("sendcap", 0),
                  profile=rec.get("profile"), eof=rec["eof"], stop=stop,
                  requests=["%s %s%s%s" % (r.method, r.kind, ":" + r.mal if r.mal else "", " [close]" if r.close else "") for r in reqs])
+    if len(where["requests"]) > 40:
+        where["requests"] = where["requests"][:3] + ["... %d more ..." % (len(reqs) - 9)] + where["requests"][-6:]
     mode = "pipeline" if pipe else "sequential"
 
     def viol(key, what, extra=None, confirm=False):
@@ -391,7 +393,8 @@ def analyze_conn(rec):
                      dict(request=first.i, thrown=first.q.get("thr"), h_exit=first.q.get("h_exit")), confirm=True)
             else:
                 viol("C16:count:response-missing", "requests %s got no response although the connection stayed open (silent for %d ms)"
-                     % ([q.i for q in missing], waited), dict(missing=[q.i for q in missing]), confirm=True)
+                     % ([q.i for q in missing], waited), dict(missing=[q.i for q in missing]),
+                     confirm=not rec.get("stall"))   # a race-mode stall was already probed with a kick request
         elif stop == "silence":
             viol("C16:stream:unframable-tail", "the stream ended inside something that is not a complete response",
                  dict(tail=tail.summary() if tail else None), confirm=True)
@@ -401,6 +404,31 @@ def analyze_conn(rec):
                             inconcl="client pacer and reference framer disagree (scn %s conn %s): missing=%s tail=%s"
                                     % (rec["scn"], rec["conn"], [q.i for q in missing], tail.summary() if tail else None))
             ob("keepalive_connections_quiescent_with_all_responses")
+    # ---- race mode: a stall suspect that the client probed with one more request (the kick)
+    st = rec.get("stall")
+    if rec.get("profile") == "race":
+        ob("race_chunks_judged")
+        ob("race_rounds_judged_by_reference_framer", len(reqs) // 2)
+    if st:
+        ob("race_stall_suspects_judged")
+        kick = rec["reqs"][st["kick"]] if st["kick"] < len(rec["reqs"]) else None
+        parked = [q for q in reqs[st["first_unanswered"]:st["kick"]]]
+        started_after_kick = [q for q in parked if q.i in answered and kick and
+                              int(q.q.get("h_enter") or 0) > int(kick["sent_ns"])]
+        if started_after_kick and st.get("others_progress", 0) > 0:
+            q = started_after_kick[0]
+            outcome = "parked-until-next-input"
+            viol("C16:stall:request-parked-until-next-input",
+                 "request %d was completely sent, stayed unanswered with the connection open for %d ms while other connections of the same "
+                 "server completed %d requests, and its handler was started only %.1f ms AFTER one more request was written on the same "
+                 "connection (then both were answered, in order): the server had parked it until the next input"
+                 % (q.i, st["stall_ms"], st["others_progress"], (int(q.q["h_enter"]) - int(kick["sent_ns"])) / 1e6),
+                 dict(stall=st, parked_request=q.i, parked_token=q.token,
+                      sent_ns=q.q.get("sent_ns"), kick_sent_ns=kick["sent_ns"], h_enter=q.q.get("h_enter"),
+                      previous_request_handler_exit=rec["reqs"][q.i - 1].get("h_exit") if q.i else None,
+                      wire_order=seq[-6:]))
+        elif all(q.i in answered for q in parked):
+            ob("race_stall_suspects_slow_not_parked")   # handler had started before the kick: slowness
     if not V:
         ob("connections_fully_conforming")
 
@@ -422,6 +450,9 @@ def _args(seed, job):
         a += ["--bigmax", job["bigmax"]]
     if job.get("onlyconn") is not None:
         a += ["--onlyconn", job["onlyconn"]]
+    if job["profile"] == "race":
+        a += ["--rounds", job["rounds"], "--hammers", job.get("hammers", 0), "--raceconns", job.get("raceconns", 8),
+              "--stall-ms", job.get("stall", 1000)]
     return a
 
 
@@ -463,11 +494,21 @@ def _plan(tier, seed):
             jobs.append((flavor, dict(**{"from": base + 100000 + i * slow_per}, count=slow_per, defh=i % 2, sendcap=0,
                                       profile="slow", silence=silence * 2, closewait=closewait, settle=settle,
                                       bigmax=bigmax)))
+    def race(flavor, n_proc, rounds, base, stall=1000, silence=8000, hammers=0):
+        for i in range(n_proc):
+            jobs.append((flavor, dict(**{"from": base + 200000 + i}, count=1, defh=0, sendcap=0, profile="race", silence=silence,
+                                      closewait=2500, settle=150, bigmax=0, rounds=rounds, stall=stall,
+                                      hammers=hammers if i % 2 else 0, raceconns=8)))
     if tier == "thorough":
+        race("plain", 6, 20000, 0, hammers=1)
+        race("asan", 2, 6000, 10000, stall=2500, silence=15000)
+        race("tsan", 2, 4000, 20000, stall=3000, silence=20000)
         add("plain", 16, 60, 0, slow_procs=6, slow_per=12)
         add("asan", 16, 25, 10000, slow_procs=2, slow_per=10, silence=15000, closewait=5000, settle=300)
         add("tsan", 16, 25, 20000, slow_procs=2, slow_per=10, silence=20000, closewait=6000, settle=400)
     else:
+        race("plain", 2, 4000, 0)
+        race("tsan", 1, 1500, 20000, stall=3000, silence=20000)
         add("plain", 10, 7, 0, slow_procs=2, slow_per=3)
         add("tsan", 5, 4, 20000, slow_procs=0, silence=20000, closewait=6000, settle=400)
     return jobs
@@ -563,10 +604,15 @@ def run(ctx):
                 "(15 kinds), optional Connection: close (5 spellings) on the last request, normal or slow reader, server send() "
                 "capped or not, default handler or built-in 404); 1-32 connections run concurrently per scenario. distinct = hash of "
                 "(mode, depth, #requests, set of kind-method, malformed kind, close?, slow?, capped?, default handler?, outcome class)")
+    ctx.rule += ("; race mode: 8 keep-alive connections x N rounds of (request A, then request B in a separate write at a seeded offset: "
+                 "-100..+20 us around the return of A's 120 us busy handler / measured response latency minus 0..120 us / 0..300 us after "
+                 "sending A / 0..60 us after the first byte of response A); first chunk, anomalous chunks and stall chunks are judged by "
+                 "the reference framer, the others by an in-order token check in the client")
     ctx.assumptions = [
         "a 204/304 response and every response to HEAD must put no body bytes on the wire whatever the handler left in the response object (RFC 9112 6.3: such a message ends at the empty line); both handler styles are driven: body cleared by the handler, and body set/inherited and left in place",
         "a connection on which nothing arrives for the silence bound (8 s plain, 15-20 s sanitizers; doubled on the isolated re-run) while responses are outstanding will never deliver them; likewise 2.5 s (5-6 s sanitizers; doubled on the re-run) for the close after a completely received Connection: close response",
         "token-less HEAD answers (built-in 404, 405) are attributed by position and therefore only sent on sequential connections",
+        "race mode: a request whose handler is entered only after a further request was written on the same connection, >= 1 s (2.5-3 s sanitizers) after it was completely sent while other connections made progress, was parked by the server, not slow",
         "the client never half-closes and never sends after a Connection: close request, so a server-side close is always the server's decision",
     ]
     ctx.require_obs("connections", "pipelined_connections", "sequential_connections", "responses_framed", "bodies_verified_exact",
@@ -576,6 +622,10 @@ def run(ctx):
                     "pipelines_where_a_later_request_has_a_shorter_handler", "srv_send_calls_capped",
                     "slow_reader_connections", "large_bodies_verified",
                     "bodyless_responses_followed_by_another_response",
+                    "race_rounds", "race_chunks_judged", "race_rounds_b_at_offset_after_handler_of_a_returned",
+                    "race_rounds_b_at_measured_latency_minus_x", "race_rounds_b_at_offset_after_sending_a",
+                    "race_rounds_b_after_first_byte_of_response_a", "race_rounds_b_written_before_response_a_arrived",
+                    "race_rounds_response_a_arrived_within_100us_after_b_was_written",
                     "bodyless_checked:HEAD-200-handler-body", "bodyless_checked:HEAD-204-handler-body",
                     "bodyless_checked:HEAD-304-handler-body", "bodyless_checked:HEAD-404-handler-body",
                     "bodyless_checked:HEAD-405-handler-body", "bodyless_checked:HEAD-500-handler-body",
